@@ -159,7 +159,7 @@ def pitch_class_to_semitone(pitch_class):
             semitone += 1
         elif char == "b" and idx > 0:
             semitone -= 1
-        elif idx == 0:
+        elif idx == 0 and char in PITCH_CLASSES:
             semitone = PITCH_CLASSES.get(char)
         else:
             raise InvalidChordException(
